@@ -24,6 +24,11 @@ CHECKS = {
 
  'C02': ('Q3 two-way embeddings (row-wise SMT queries) between the lifted EAO problem and an independent reference model over physical variables', '6 C02',
          'opt(EAO) = opt(reference) for ALL parameter values, prices, take volumes and discount rates of every catalogue shape, decided without solving an LP: every EAO-feasible point maps to a reference-feasible point of at least the same value and vice versa; the first half also shows every dispatch EAO can return is feasible for the reference. Efficiencies/factors are generic concrete rationals at Level A, symbolic in the thorough *_B shapes.'),
+
+ 'C08': ('Q2 (reported dispatch outside the window is identically 0), Q3 two-way embeddings with/without an element outside the horizon, Q3 against the reference for take-period placements', '6 C08',
+         'For every asset class (incl. Plant/CHP, coarse, scaled, order book) placed before/after the horizon, orders before/between/after live orders and take periods in 7 placements: with and without the element the problems have the same feasible set up to inert variables, the same value and the same reported dispatch, for all parameter values and prices; one open known finding (KF-C08-scaledwin).'),
+ 'C20': ('Q3 two-way embeddings against an independent one-variable-per-order reference; Q1 for reported delivery, fractions and special rows over all feasible x', '6 C20',
+         'Order lists with overlapping, nested, partly and wholly outside orders (before/between/after), full execution, discounting and companions: optimum equals the reference for all prices/parameters; reported delivery = sum fraction*capacity*dt and special rows are exact for all feasible points.'),
 }
 NA = {}
 props = [json.loads(l) for l in open(os.path.join(ROOT, 'properties.jsonl'))]
